@@ -563,3 +563,21 @@ def checkpoint(eng, st, h):
     for k in reversed(ks[:-1]):
         t = z3.If(ht == k, bytes_term(table[k]), t)
     return V(t, BYTES)
+
+
+# ---- C14: signatures made by the wallet (A-ECDSA) ------------------------------------------------------------------------
+
+@GH.ghost('signed_input')
+def signed_input(eng, st, inp, priv, msg):
+    """the input carries a SECP256k1 signature object whose bytes were produced by signing msg with the private key priv"""
+    from pyvc.types import to_sort, opt_sort, BYTES_SORT
+    reg = eng.reg
+    Inp = reg.classes['Input']
+    Sig = reg.classes['SECP256k1Signature']
+    SigS = to_sort(CLS('Signature'), reg)
+    o = opt_sort(SigS)
+    sig_opt = Inp.acc['signature'](inp.t)
+    sig = o.val(sig_opt)
+    made = eng.uf('ecdsa_signed', BYTES_SORT, BYTES_SORT, BYTES_SORT, z3.BoolSort())
+    return V(z3.And(o.is_some(sig_opt), Sig.recog(sig),
+                    made(eng.term(priv, BYTES, st), eng.term(msg, BYTES, st), Sig.acc['signature'](sig))), BOOL)
